@@ -928,10 +928,12 @@ pub struct ScriptEnv<'a> {
     pub draw_pos: usize,
     pub draw_marks: Vec<usize>,
     pub repeat_last: bool,
+    /// bound of every draw the reference asked for
+    pub bounds_seen: Vec<i64>,
 }
 impl<'a> ScriptEnv<'a> {
     pub fn new(script: &'a [crate::driver::Step]) -> Self {
-        ScriptEnv { script, pos: 0, draws: &[], draw_pos: 0, draw_marks: vec![], repeat_last: false }
+        ScriptEnv { script, pos: 0, draws: &[], draw_pos: 0, draw_marks: vec![], repeat_last: false, bounds_seen: vec![] }
     }
     fn step(&mut self) -> Option<&'a crate::driver::Step> {
         let s = match self.script.get(self.pos) {
@@ -960,7 +962,8 @@ impl<'a> Env for ScriptEnv<'a> {
             crate::driver::Step::Fault(id) => EnvW::Fault(*id),
         }
     }
-    fn draw(&mut self, _bound: i64) -> Option<i64> {
+    fn draw(&mut self, bound: i64) -> Option<i64> {
+        self.bounds_seen.push(bound);
         let v = self.draws.get(self.draw_pos).copied();
         self.draw_pos += 1;
         v
